@@ -111,7 +111,7 @@ def run_shard(spec, acc):
                                 key = "L3:cancel-reject-returns-pending-new" if k == "9" else "L3:report-returns-pending-new-from-acknowledged"
                                 acc.violation(key, f"{cell}", cell, cid)
                         # ---- L4 just created
-                        if cur == S.CREATED and k == "8":
+                        if cur == S.CREATED and k in ("8", "9"):
                             acc.oracle("L4")
                             if got_status != (rep in (S.PENDING_NEW, S.REJECTED)):
                                 acc.violation("L4:created-order-acceptance", f"{cell}: accepted={got_status}", cell, cid)
